@@ -63,6 +63,15 @@ private:
     //! LFO setup registry cache
     uint8_t                     m_regLFOSetup;
 
+#ifdef OPNMIDI_VERIF
+    friend struct OPNMIDI_VerifAccess;
+public:
+    //! Verification hook: observer of every chip register / pan write (port 0xFF = soft-pan write)
+    typedef void (*VerifTap)(void *data, size_t chip, unsigned port, unsigned reg, unsigned value);
+    VerifTap    m_verifTap;
+    void       *m_verifTapData;
+#endif
+
 public:
     /**
      * @brief MIDI bank entry
